@@ -54,7 +54,7 @@ impl Property for C02 {
         }
     }
     fn required_classes(&self) -> Vec<&'static str> {
-        vec!["mid-clock-row", "early-drop", "post-none-calls", "overriding-driver", "defaulting-driver", "formula-checked", "ran-to-end", "driver-failure-inside-an-expansion", "pure-stimulus-test"]
+        vec!["mid-clock-row", "early-drop", "post-none-calls", "overriding-driver", "defaulting-driver", "formula-checked", "ran-to-end", "driver-failure-inside-an-expansion", "pure-stimulus-test", "header>=65-columns"]
     }
     fn run(&self, s: &Streams) -> CaseOut {
         let mut out = CaseOut::new();
@@ -69,6 +69,8 @@ impl Property for C02 {
         if dch.chance(1, 2) {
             cfg.fit = Fit::Free;
         }
+        cfg.wide_inputs = dch.chance(1, 30);
+        out.class_if(cfg.wide_inputs, "header>=65-columns");
         let pure_stimulus = dch.chance(1, 6);
         if pure_stimulus {
             cfg.n_out = (0, 0);
